@@ -70,6 +70,199 @@ package ast
 // mutably between runtimes through globals (C20).
 //@ globals_readonly[C20]
 
+// Idx0: every node starts at its first token.  Productions that begin with a keyword or a
+// punctuator (ES5 11.1.4-5, 11.2.2 new, 12.x statements, 13 function) start at the recorded
+// position of that token; a literal, identifier, this at its own position; left-recursive
+// productions (11.2.1 member, 11.2.3 call, binary, assignment, conditional, expression and
+// labelled statements) where their leftmost operand starts.
+//@ func (*ArrayLiteral).Idx0
+//@   props C04 C19
+//@   nosafety
+//@   requires al != nil
+//@   ensures result == old(al.LeftBracket)
+//@ func (*AssignExpression).Idx0
+//@   props C04 C19
+//@   nosafety
+//@   requires ae != nil
+//@   calls ast.Expression.Idx0(ae.Left) as a
+//@   ensures called(a) && result == a
+//@ func (*BinaryExpression).Idx0
+//@   props C04 C19
+//@   nosafety
+//@   requires be != nil
+//@   calls ast.Expression.Idx0(be.Left) as a
+//@   ensures called(a) && result == a
+//@ func (*BooleanLiteral).Idx0
+//@   props C04 C19
+//@   nosafety
+//@   requires bl != nil
+//@   ensures result == old(bl.Idx)
+//@ func (*BracketExpression).Idx0
+//@   props C04 C19
+//@   nosafety
+//@   requires be != nil
+//@   calls ast.Expression.Idx0(be.Left) as a
+//@   ensures called(a) && result == a
+//@ func (*CallExpression).Idx0
+//@   props C04 C19
+//@   nosafety
+//@   requires ce != nil
+//@   calls ast.Expression.Idx0(ce.Callee) as a
+//@   ensures called(a) && result == a
+//@ func (*ConditionalExpression).Idx0
+//@   props C04 C19
+//@   nosafety
+//@   requires ce != nil
+//@   calls ast.Expression.Idx0(ce.Test) as a
+//@   ensures called(a) && result == a
+//@ func (*DotExpression).Idx0
+//@   props C04 C19
+//@   nosafety
+//@   requires de != nil
+//@   calls ast.Expression.Idx0(de.Left) as a
+//@   ensures called(a) && result == a
+//@ func (*FunctionLiteral).Idx0
+//@   props C04 C19
+//@   nosafety
+//@   requires fl != nil
+//@   ensures result == old(fl.Function)
+//@ func (*Identifier).Idx0
+//@   props C04 C19
+//@   nosafety
+//@   requires i != nil
+//@   ensures result == old(i.Idx)
+//@ func (*NewExpression).Idx0
+//@   props C04 C19
+//@   nosafety
+//@   requires ne != nil
+//@   ensures result == old(ne.New)
+//@ func (*NullLiteral).Idx0
+//@   props C04 C19
+//@   nosafety
+//@   requires nl != nil
+//@   ensures result == old(nl.Idx)
+//@ func (*NumberLiteral).Idx0
+//@   props C04 C19
+//@   nosafety
+//@   requires nl != nil
+//@   ensures result == old(nl.Idx)
+//@ func (*ObjectLiteral).Idx0
+//@   props C04 C19
+//@   nosafety
+//@   requires ol != nil
+//@   ensures result == old(ol.LeftBrace)
+//@ func (*RegExpLiteral).Idx0
+//@   props C04 C19
+//@   nosafety
+//@   requires rl != nil
+//@   ensures result == old(rl.Idx)
+//@ func (*StringLiteral).Idx0
+//@   props C04 C19
+//@   nosafety
+//@   requires sl != nil
+//@   ensures result == old(sl.Idx)
+//@ func (*ThisExpression).Idx0
+//@   props C04 C19
+//@   nosafety
+//@   requires te != nil
+//@   ensures result == old(te.Idx)
+//@ func (*VariableExpression).Idx0
+//@   props C04 C19
+//@   nosafety
+//@   requires ve != nil
+//@   ensures result == old(ve.Idx)
+//@ func (*BlockStatement).Idx0
+//@   props C04 C19
+//@   nosafety
+//@   requires bs != nil
+//@   ensures result == old(bs.LeftBrace)
+//@ func (*BranchStatement).Idx0
+//@   props C04 C19
+//@   nosafety
+//@   requires bs != nil
+//@   ensures result == old(bs.Idx)
+//@ func (*CaseStatement).Idx0
+//@   props C04 C19
+//@   nosafety
+//@   requires cs != nil
+//@   ensures result == old(cs.Case)
+//@ func (*CatchStatement).Idx0
+//@   props C04 C19
+//@   nosafety
+//@   requires cs != nil
+//@   ensures result == old(cs.Catch)
+//@ func (*DebuggerStatement).Idx0
+//@   props C04 C19
+//@   nosafety
+//@   requires ds != nil
+//@   ensures result == old(ds.Debugger)
+//@ func (*DoWhileStatement).Idx0
+//@   props C04 C19
+//@   nosafety
+//@   requires dws != nil
+//@   ensures result == old(dws.Do)
+//@ func (*EmptyStatement).Idx0
+//@   props C04 C19
+//@   nosafety
+//@   requires es != nil
+//@   ensures result == old(es.Semicolon)
+//@ func (*ExpressionStatement).Idx0
+//@   props C04 C19
+//@   nosafety
+//@   requires es != nil
+//@   calls ast.Expression.Idx0(es.Expression) as a
+//@   ensures called(a) && result == a
+//@ func (*ForInStatement).Idx0
+//@   props C04 C19
+//@   nosafety
+//@   requires fis != nil
+//@   ensures result == old(fis.For)
+//@ func (*ForStatement).Idx0
+//@   props C04 C19
+//@   nosafety
+//@   requires fs != nil
+//@   ensures result == old(fs.For)
+//@ func (*IfStatement).Idx0
+//@   props C04 C19
+//@   nosafety
+//@   requires is != nil
+//@   ensures result == old(is.If)
+//@ func (*ReturnStatement).Idx0
+//@   props C04 C19
+//@   nosafety
+//@   requires rs != nil
+//@   ensures result == old(rs.Return)
+//@ func (*SwitchStatement).Idx0
+//@   props C04 C19
+//@   nosafety
+//@   requires ss != nil
+//@   ensures result == old(ss.Switch)
+//@ func (*ThrowStatement).Idx0
+//@   props C04 C19
+//@   nosafety
+//@   requires ts != nil
+//@   ensures result == old(ts.Throw)
+//@ func (*TryStatement).Idx0
+//@   props C04 C19
+//@   nosafety
+//@   requires ts != nil
+//@   ensures result == old(ts.Try)
+//@ func (*VariableStatement).Idx0
+//@   props C04 C19
+//@   nosafety
+//@   requires vs != nil
+//@   ensures result == old(vs.Var)
+//@ func (*WhileStatement).Idx0
+//@   props C04 C19
+//@   nosafety
+//@   requires ws != nil
+//@   ensures result == old(ws.While)
+//@ func (*WithStatement).Idx0
+//@   props C04 C19
+//@   nosafety
+//@   requires ws != nil
+//@   ensures result == old(ws.With)
+
 // Spans of compound nodes whose end depends on an optional part: the end of an if
 // statement is the end of its else branch when there is one, of its then branch otherwise;
 // likewise return (argument), try (finally before catch), var (initialiser), break/continue
